@@ -3,7 +3,8 @@ irregular times, a release TABLE with times and multiplicities, output period, I
 disk, run through ladim.main.main, and described to Coq by times and values (not by steps: the step of
 every time, the bracketing frames, the interpolation and the release schedule are computed by the model).
 
-desc = {N, rev, S, p, life, fsteps[], u[], temp[], cuts[], rows[[step, mult, x, cls]], extra_rows[...]}
+desc = {N, rev, S, p, life, fsteps[], u[], temp[], cuts[], rows[[step, mult, x, cls]], outside[...], cont}
+cont = continuous-release frequency in seconds (0 / absent: discrete release).
 Physical layout: 20 x 8 grid, three unstretched levels; class c (depth 100/60/20 m) feels the velocity of
 level c = u(t) * CFAC[c]; the scalar field is uniform.  All values are dyadic and the increments per step are
 multiples of the frame spacing, so that the float arithmetic of the run is exact.
@@ -21,7 +22,7 @@ DT, DX = si.DT, si.DX
 CFAC = [1.0, 0.5, 2.0]
 
 
-def gen_setup(rng, rev=None):
+def gen_setup(rng, rev=None, cont_mode=None):
     N = rng.randint(3, 9)
     rev = (rng.random() < 0.5) if rev is None else rev
     first = rng.choice([0, 0, -1, -3])
@@ -40,22 +41,43 @@ def gen_setup(rng, rev=None):
     temp = [float(rng.randint(1, 30)) for _ in fsteps]
     nfiles = rng.randint(1, min(3, len(fsteps)))
     cuts = sorted(rng.sample(range(1, len(fsteps)), nfiles - 1)) if nfiles > 1 else []
-    rows = []
-    for n in range(N):
-        if n == 0 or rng.random() < 0.45:
-            for _ in range(rng.randint(1, 3)):
-                rows.append([n, rng.choice([1, 1, 1, 2, 0]), rng.randint(2 * 64, 15 * 64) / 64, rng.randrange(3)])
-    if not any(r[1] > 0 for r in rows):
-        rows[0][1] = 1
-    # rows outside the simulated window: before the start, at / after the stop (never released)
-    outside = []
-    if rng.random() < 0.4:
-        outside.append([-rng.randint(1, 3), 1, 5.0, 0])
-    if rng.random() < 0.4:
-        outside.append([N + rng.randint(0, 2), 2, 6.0, 1])
+    cont = 0
+    if (rng.random() < 1 / 3) if cont_mode is None else cont_mode:
+        # continuous release (Release.cont_ok): frequency k * DT; the part of the table before the stop time holds a
+        # few file times on the frequency grid anchored at the first one — which may lie before the start (its
+        # rows are then forward-filled into the window) and need not be a whole number of periods from the
+        # start —, in simulation order; rows at / after the stop time are unconstrained (filtered first)
+        k = rng.choice([1, 2, 2, 3])
+        cont = k * DT
+        f0 = rng.choice([0, 0, 0, -1, -2, -3])
+        rows, n = [], f0
+        while n < N:
+            if n == f0 or rng.random() < 0.5:
+                for _ in range(rng.randint(1, 3)):
+                    rows.append([n, rng.choice([1, 1, 1, 2, 0]), rng.randint(2 * 64, 15 * 64) / 64, rng.randrange(3)])
+            n += k
+        if not any(r[1] > 0 for r in rows):
+            rows[0][1] = 1
+        outside = []
+        if rng.random() < 0.5:
+            outside.append([N + rng.randint(0, 2), 2, 6.0, 1])
+    else:
+        rows = []
+        for n in range(N):
+            if n == 0 or rng.random() < 0.45:
+                for _ in range(rng.randint(1, 3)):
+                    rows.append([n, rng.choice([1, 1, 1, 2, 0]), rng.randint(2 * 64, 15 * 64) / 64, rng.randrange(3)])
+        if not any(r[1] > 0 for r in rows):
+            rows[0][1] = 1
+        # rows outside the simulated window: before the start, at / after the stop (never released)
+        outside = []
+        if rng.random() < 0.4:
+            outside.append([-rng.randint(1, 3), 1, 5.0, 0])
+        if rng.random() < 0.4:
+            outside.append([N + rng.randint(0, 2), 2, 6.0, 1])
     return {"N": N, "rev": bool(rev), "S": 50000 + 64 * rng.randint(0, 500), "p": rng.choice([1, 1, 2, 3]),
             "life": rng.choice([-1, -1, 2, 3, 5]), "fsteps": fsteps, "u": u, "temp": temp, "cuts": cuts,
-            "rows": rows, "outside": outside}
+            "rows": rows, "outside": outside, "cont": cont}
 
 
 def physical(desc):
@@ -87,6 +109,13 @@ def transform(phys, kind, d, rev):
     return (S, mx(stop), files2, [(mx(x), m, xx, c) for x, m, xx, c in rel]), (not rev)
 
 
+def set_release_mode(conf, desc):
+    """continuous release with the frequency of the description (seconds), else discrete (the default)"""
+    if desc.get("cont", 0):
+        conf["release"]["continuous"] = True
+        conf["release"]["release_frequency"] = int(desc["cont"])
+
+
 def run(d, name, desc, phys, rev):
     S, stop, files, rel = phys
     for f in d.glob(f"f_{name}_*.nc"):
@@ -99,6 +128,7 @@ def run(d, name, desc, phys, rev):
     env = {"p": desc["p"], "life": desc["life"]}
     conf = si.config(d, env, S, stop, f"o_{name}.nc", f"r_{name}.rls", f"f_{name}_*.nc", rev=rev)
     conf["release"]["names"] = ["release_time", "mult", "X", "Y", "Z"]
+    set_release_mode(conf, desc)
     conf["grid"] = {"module": "ladim.ROMS", "filename": str(d / f"f_{name}_000.nc")}
     rl.run_main(conf, d)
     return si.records([d / f"o_{name}.nc"], S, rev=rev)
@@ -106,7 +136,7 @@ def run(d, name, desc, phys, rev):
 
 def enc_setup(desc, phys, rev):
     S, stop, files, rel = phys
-    ints = [S, stop, DT, 1 if rev else 0, desc["p"]] + fl(DT / DX) + fl(si.LO) + fl(si.HI) + [desc["life"], len(CFAC)]
+    ints = [S, stop, DT, 1 if rev else 0, desc["p"], int(desc.get("cont", 0))] + fl(DT / DX) + fl(si.LO) + fl(si.HI) + [desc["life"], len(CFAC)]
     for c in CFAC:
         ints += fl(c)
     ints += [len(files)]
@@ -184,6 +214,7 @@ def eval_restart(desc, d, numrec):
     env = {"p": desc["p"], "life": desc["life"]}
     conf = si.config(d, env, S, stop, f"o_{name}.nc", f"r_{name}.rls", f"f_{name}_*.nc", rev=rev, numrec=numrec)
     conf["release"]["names"] = ["release_time", "mult", "X", "Y", "Z"]
+    set_release_mode(conf, desc)
     conf["grid"] = {"module": "ladim.ROMS", "filename": str(d / f"f_{name}_000.nc")}
     rl.run_main(conf, d)
     cfiles = sorted(d.glob(f"o_{name}_*.nc"), key=lambda p: int(p.stem.split("_")[-1]))
